@@ -359,14 +359,14 @@ Proof. induction l2 as [|r l2 IH]; intros l1; cbn [fold_left]; [reflexivity|]. r
 Lemma find_group_k key rts : find_group key rts = kfind _ _ rt_Matches key rts.
 Proof. induction rts as [|m rest IH]; cbn [find_group kfind]; [reflexivity|]. rewrite IH. reflexivity. Qed.
 
-Lemma merge_cat_k sm cts c : merge_cat_with sm cts c = kmerge _ ct_same (ct_merge_with sm) cts c.
+Lemma merge_cat_k mp cts c : merge_cat_with mp cts c = kmerge _ ct_same (ct_merge_with mp) cts c.
 Proof.
   induction cts as [|m rest IH]; cbn [merge_cat_with kmerge]; [reflexivity|].
   rewrite IH. reflexivity.
 Qed.
 
-Lemma fold_merge_cat_k sm l2 : forall l1,
-  fold_left (merge_cat_with sm) l2 l1 = fold_left (kmerge _ ct_same (ct_merge_with sm)) l2 l1.
+Lemma fold_merge_cat_k mp l2 : forall l1,
+  fold_left (merge_cat_with mp) l2 l1 = fold_left (kmerge _ ct_same (ct_merge_with mp)) l2 l1.
 Proof. induction l2 as [|r l2 IH]; intros l1; cbn [fold_left]; [reflexivity|]. rewrite merge_cat_k. apply IH. Qed.
 
 Lemma find_cat_k code cts : find_cat code cts = kfind _ _ ct_has code cts.
@@ -399,9 +399,9 @@ Proof.
   - intros m r k. apply rt_Matches_join.
 Qed.
 
-Lemma find_cat_fold sm code l2 l1 : distinct_codes l2 ->
-  find_cat code (fold_left (merge_cat_with sm) l2 l1) =
-  merged_row _ (ct_merge_with sm) (find_cat code l1) (find_cat code l2).
+Lemma find_cat_fold mp code l2 l1 : distinct_codes l2 ->
+  find_cat code (fold_left (merge_cat_with mp) l2 l1) =
+  merged_row _ (ct_merge_with mp) (find_cat code l1) (find_cat code l2).
 Proof.
   intros D. rewrite fold_merge_cat_k, !find_cat_k.
   apply kfind_fold.
@@ -434,13 +434,13 @@ Proof.
   rewrite Forall_forall in F. apply F, H.
 Qed.
 
-Lemma cat_of_merge sm t1 t2 code : distinct_codes (tt_cats t2) ->
-  cat_of (tt_merge_with sm t1 t2) code =
-  merged_row _ (ct_merge_with sm) (cat_of t1 code) (cat_of t2 code).
+Lemma cat_of_merge mp t1 t2 code : distinct_codes (tt_cats t2) ->
+  cat_of (tt_merge_with mp t1 t2) code =
+  merged_row _ (ct_merge_with mp) (cat_of t1 code) (cat_of t2 code).
 Proof. intros D. unfold cat_of, tt_merge_with. cbn [tt_cats]. apply find_cat_fold, D. Qed.
 
-Lemma group_of_merge sm c t1 t2 code key : wf_tt c t2 ->
-  group_of (tt_merge_with sm t1 t2) code key =
+Lemma group_of_merge mp c t1 t2 code key : wf_tt c t2 ->
+  group_of (tt_merge_with mp t1 t2) code key =
   merged_row _ rt_merge (group_of t1 code key) (group_of t2 code key).
 Proof.
   intros W. unfold group_of. rewrite cat_of_merge by apply W.
@@ -498,10 +498,10 @@ Proof.
   - apply Hb. reflexivity.
 Qed.
 
-Lemma ct_merge_wf c m r : wf_ct c m -> wf_ct c r -> wf_ct c (ct_merge_with sur_merge m r).
+Lemma ct_merge_wf c m r : wf_ct c m -> wf_ct c r -> wf_ct c (ct_merge_with mp_repaired m r).
 Proof.
   intros (D1 & F1 & A1 & S1) (D2 & F2 & A2 & S2).
-  unfold wf_ct, ct_merge_with. cbn [ct_rates ct_amount ct_surcharge].
+  unfold wf_ct, ct_merge_with. cbn [ct_rates ct_amount ct_surcharge mp_sur mp_repaired].
   rewrite fold_merge_rate_k. repeat split.
   - apply distinct_groups_k. apply kfold_distinct; try reflexivity. apply D1.
   - apply kfold_Forall; try assumption. apply rt_merge_wf.
@@ -537,7 +537,7 @@ Lemma merge_groups c t1 t2 code key : wf_tt c t1 -> wf_tt c t2 ->
   has_group m code key = has_group t1 code key || has_group t2 code key.
 Proof.
   intros W1 W2 m. unfold group_base, group_amount, group_suramount, has_group, m, tt_merge.
-  rewrite (group_of_merge sur_merge c t1 t2 code key W2).
+  rewrite (group_of_merge mp_repaired c t1 t2 code key W2).
   destruct (group_of t1 code key) as [g1|] eqn:E1; destruct (group_of t2 code key) as [g2|] eqn:E2;
     cbn [merged_row orb].
   - pose proof (rt_merge_vals c g1 g2 (group_of_wf _ _ _ _ _ W1 E1) (group_of_wf _ _ _ _ _ W2 E2))
@@ -555,12 +555,12 @@ Lemma merge_cats c t1 t2 code : wf_tt c t1 -> wf_tt c t2 ->
   has_cat m code = has_cat t1 code || has_cat t2 code.
 Proof.
   intros W1 W2 m. unfold cat_amount, cat_surcharge, has_cat, m, tt_merge.
-  rewrite (cat_of_merge sur_merge t1 t2 code) by apply W2.
+  rewrite (cat_of_merge mp_repaired t1 t2 code) by apply W2.
   destruct (cat_of t1 code) as [c1|] eqn:E1; destruct (cat_of t2 code) as [c2|] eqn:E2;
     cbn [merged_row orb].
   - pose proof (cat_of_wf _ _ _ _ W1 E1) as (_ & _ & A1 & S1).
     pose proof (cat_of_wf _ _ _ _ W2 E2) as (_ & _ & A2 & S2).
-    unfold ct_merge_with. cbn [ct_amount ct_surcharge].
+    unfold ct_merge_with. cbn [ct_amount ct_surcharge mp_sur mp_repaired].
     rewrite add_val_same_exp by congruence.
     rewrite (sur_merge_vals c) by assumption. repeat split.
   - repeat split; [lia|]. destruct (option_map val (ct_surcharge c1)); reflexivity.
@@ -650,6 +650,123 @@ Proof.
     rewrite H1, H2, H3, K1, K2, K3. repeat split; [lia|apply opt_sum_comm|apply orb_comm].
   - lia.
   - destruct Wa as (_ & _ & Ea), Wb as (_ & _ & Eb). congruence.
+Qed.
+
+(* ---- amounts accumulated without loss: x.MatchPrecision(y).Add(y) ---- *)
+Lemma match_precision_toQ a b : toQ (match_precision a b) == toQ a.
+Proof.
+  unfold match_precision, rescale_up. destruct (Nat.ltb (exp a) (exp b)) eqn:E; [|reflexivity].
+  apply Nat.ltb_lt in E. apply rescale_lossless. lia.
+Qed.
+
+Lemma match_precision_exp a b : (exp b <= exp (match_precision a b))%nat.
+Proof.
+  unfold match_precision, rescale_up. destruct (Nat.ltb (exp a) (exp b)) eqn:E.
+  - rewrite rescale_exp. lia.
+  - apply Nat.ltb_ge in E. exact E.
+Qed.
+
+Lemma acc_add_toQ t a : toQ (add (match_precision t a) a) == toQ t + toQ a.
+Proof. rewrite add_no_loss by apply match_precision_exp. rewrite match_precision_toQ. reflexivity. Qed.
+
+Lemma acc_sub_toQ t a : toQ (sub (match_precision t a) a) == toQ t - toQ a.
+Proof.
+  rewrite sub_add_negate. rewrite add_no_loss by (cbn [negate exp]; apply match_precision_exp).
+  rewrite match_precision_toQ, negate_toQ. reflexivity.
+Qed.
+
+Lemma zero_of_toQ c : toQ (zero_of c) == 0.
+Proof. unfold Qeq, toQ, zero_of. cbn [Qnum Qden val]. lia. Qed.
+
+(* the unexported figures under Negate: PreciseAmount / PreciseSum commute with it *)
+Lemma precise_or_negate p s : precise_or (negate p) (negate s) = negate (precise_or p s).
+Proof.
+  unfold precise_or, is_zero. cbn [negate val].
+  destruct (val p =? 0) eqn:E; destruct (- val p =? 0) eqn:E2; try reflexivity; lia.
+Qed.
+
+Lemma tt_PreciseSum_negate t : tt_PreciseSum (tt_negate t) = negate (tt_PreciseSum t).
+Proof. unfold tt_PreciseSum, tt_negate. cbn [tt_precise tt_sum]. apply precise_or_negate. Qed.
+
+Lemma add_precise_negate_zero x : val (add_precise x (negate x)) = 0.
+Proof.
+  unfold add_precise, match_precision, rescale_up. cbn [negate exp]. rewrite Nat.ltb_irrefl.
+  apply add_negate_zero.
+Qed.
+
+(* ---- (b') Merge sums the unexported precise figures ---- *)
+(* the figure PreciseAmount() / PreciseSum() answers, and the raw unexported field *)
+Definition cat_precise (t : tax_total) (code : bytes) : Q :=
+  match cat_of t code with Some ct => toQ (ct_PreciseAmount ct) | None => 0%Q end.
+Definition cat_precise_field (t : tax_total) (code : bytes) : Q :=
+  match cat_of t code with Some ct => toQ (ct_precise ct) | None => 0%Q end.
+
+Lemma add_precise_toQ x y : toQ (add_precise x y) == toQ x + toQ y.
+Proof. apply acc_add_toQ. Qed.
+
+Lemma is_zero_toQ a : is_zero a = true -> toQ a == 0.
+Proof.
+  unfold is_zero. intros H. apply Z.eqb_eq in H. unfold Qeq, toQ. cbn [Qnum Qden]. rewrite H. reflexivity.
+Qed.
+
+Lemma precise_or_nonzero p s : ~ toQ p == 0 -> precise_or p s = p.
+Proof.
+  intros H. unfold precise_or. destruct (is_zero p) eqn:E; [|reflexivity].
+  exfalso. apply H, is_zero_toQ, E.
+Qed.
+
+Lemma merge_precise_fields t1 t2 : distinct_codes (tt_cats t2) ->
+  let m := tt_merge t1 t2 in
+  (forall code,
+     cat_precise_field m code ==
+     if has_cat t1 code && has_cat t2 code then cat_precise t1 code + cat_precise t2 code
+     else cat_precise_field t1 code + cat_precise_field t2 code) /\
+  toQ (tt_precise m) == toQ (tt_PreciseSum t1) + toQ (tt_PreciseSum t2).
+Proof.
+  intros D m. split.
+  - intros code. unfold cat_precise_field, cat_precise, has_cat, m, tt_merge.
+    rewrite (cat_of_merge mp_repaired t1 t2 code D).
+    destruct (cat_of t1 code) as [c1|]; destruct (cat_of t2 code) as [c2|]; cbn [merged_row andb].
+    + unfold ct_merge_with. cbn [ct_precise mp_cat_precise mp_repaired]. apply add_precise_toQ.
+    + ring.
+    + ring.
+    + ring.
+  - unfold m, tt_merge, tt_merge_with. cbn [tt_precise mp_sum_precise mp_repaired]. apply add_precise_toQ.
+Qed.
+
+Lemma merge_precise_componentwise t1 t2 : distinct_codes (tt_cats t2) ->
+  let m := tt_merge t1 t2 in
+  (forall code, ~ cat_precise t1 code + cat_precise t2 code == 0 ->
+     cat_precise m code == cat_precise t1 code + cat_precise t2 code) /\
+  (~ toQ (tt_PreciseSum t1) + toQ (tt_PreciseSum t2) == 0 ->
+     toQ (tt_PreciseSum m) == toQ (tt_PreciseSum t1) + toQ (tt_PreciseSum t2)).
+Proof.
+  intros D m. split.
+  - intros code. unfold cat_precise, m, tt_merge.
+    rewrite (cat_of_merge mp_repaired t1 t2 code D).
+    destruct (cat_of t1 code) as [c1|]; destruct (cat_of t2 code) as [c2|]; cbn [merged_row]; intros NZ.
+    + unfold ct_PreciseAmount at 1. unfold ct_merge_with. cbn [ct_precise ct_amount mp_cat_precise mp_repaired].
+      rewrite precise_or_nonzero; [apply add_precise_toQ|].
+      rewrite add_precise_toQ. exact NZ.
+    + ring.
+    + ring.
+    + ring.
+  - intros NZ. unfold tt_PreciseSum at 1. unfold m, tt_merge, tt_merge_with.
+    cbn [tt_precise tt_sum mp_sum_precise mp_repaired].
+    rewrite precise_or_nonzero; [apply add_precise_toQ|].
+    rewrite add_precise_toQ. exact NZ.
+Qed.
+
+Lemma merge_precise_comm t1 t2 : distinct_codes (tt_cats t1) -> distinct_codes (tt_cats t2) ->
+  (forall code, cat_precise_field (tt_merge t1 t2) code == cat_precise_field (tt_merge t2 t1) code) /\
+  toQ (tt_precise (tt_merge t1 t2)) == toQ (tt_precise (tt_merge t2 t1)).
+Proof.
+  intros D1 D2.
+  destruct (merge_precise_fields t1 t2 D2) as (C1 & S1).
+  destruct (merge_precise_fields t2 t1 D1) as (C2 & S2). split.
+  - intros code. rewrite (C1 code), (C2 code). rewrite (andb_comm (has_cat t2 code)).
+    destruct (has_cat t1 code && has_cat t2 code); ring.
+  - rewrite S1, S2. ring.
 Qed.
 
 (* ------------------------------------------------------------------------------------------ *)
@@ -789,7 +906,8 @@ Proof.
     rewrite H1, H2, H3, K1, K2, K3. repeat split; [lia| |apply orb_diag].
     destruct (cat_surcharge t code) as [x|]; cbn [option_map opt_sum]; [|reflexivity]. f_equal. lia.
   - lia.
-  - unfold m, tt_merge, tt_merge_with, tt_negate. cbn [tt_precise]. apply add_negate_zero.
+  - unfold m, tt_merge, tt_merge_with. cbn [tt_precise mp_sum_precise mp_repaired].
+    rewrite tt_PreciseSum_negate. apply add_precise_negate_zero.
   - exact Wm.
 Qed.
 
@@ -848,6 +966,53 @@ Lemma merge_negate_zero_shipped_refuted :
     cat_surcharge (tt_merge_shipped t (tt_negate_shipped t)) code <> Some 0.
 Proof.
   exists 2%nat, ex_tt, ex_code, ex_rt. split; [exact ex_tt_wf|].
+  split; vm_compute; discriminate.
+Qed.
+
+(* the unexported figures as shipped (catTotal.amount untouched, nt.sum = nt.sum.Add(t2.sum)):
+   ex_calc = {VAT 21% of 100.004} recalculated (precise 21.001, presented 21.00) merged with the loaded
+   ex_loaded = {VAT 21% of 100.00 = 21.00} keeps 21.001 for the category (want 42.001), and in the
+   other order the unset sum (0 with no decimals) rescales 21.001 to 21 *)
+Definition ex_rt3 (base : amount) : rate_total :=
+  mkRT [] [] [] (Some (mkA 21 2)) None base (mkA 2100 2) (mkA 0 2).
+Definition ex_loaded : tax_total :=
+  mkTT [mkCT ex_code false [ex_rt3 (mkA 10000 2)] (mkA 2100 2) None (mkA 0 0)] (mkA 2100 2) (mkA 0 0).
+Definition ex_calc : tax_total :=
+  tt_calculate false 2
+    (mkTT [mkCT ex_code false [ex_rt3 (mkA 100004 3)] (mkA 2100 2) None (mkA 0 0)] (mkA 2100 2) (mkA 0 0)).
+
+Lemma ex_loaded_wf : wf_tt 2 ex_loaded. Proof. wf_concrete. Qed.
+Lemma ex_calc_wf : wf_tt 2 ex_calc. Proof. wf_concrete. Qed.
+
+Lemma merge_precise_shipped_refuted :
+  exists c t1 t2 code, wf_tt c t1 /\ wf_tt c t2 /\
+    ~ cat_precise (tt_merge_precise_shipped t1 t2) code == cat_precise t1 code + cat_precise t2 code /\
+    ~ toQ (tt_PreciseSum (tt_merge_precise_shipped t2 t1)) == toQ (tt_PreciseSum t2) + toQ (tt_PreciseSum t1).
+Proof.
+  exists 2%nat, ex_calc, ex_loaded, ex_code. split; [exact ex_calc_wf|]. split; [exact ex_loaded_wf|].
+  split; vm_compute; discriminate.
+Qed.
+
+Lemma merge_precise_example :
+  cat_precise (tt_merge ex_calc ex_loaded) ex_code == 42001 # 1000 /\
+  toQ (tt_PreciseSum (tt_merge ex_loaded ex_calc)) == 42001 # 1000.
+Proof. split; vm_compute; reflexivity. Qed.
+
+(* what remains after the repair: PreciseSum() / PreciseAmount() read "zero" as "unset", so when the
+   precise figures cancel exactly the accessor answers the sum of the rounded figures instead:
+   0.005 + 0.005 - 0.010 (presented 0.01 + 0.01 - 0.01) *)
+Definition ex_tenth (base : amount) : tax_total :=
+  tt_calculate false 2
+    (mkTT [mkCT ex_code false [mkRT [] [] [] (Some (mkA 10 2)) None base (mkA 0 2) (mkA 0 2)]
+                (mkA 0 2) None (mkA 0 0)] (mkA 0 2) (mkA 0 0)).
+
+Lemma merge_precise_accessor_cancel_refuted :
+  exists c t1 t2 code, wf_tt c t1 /\ wf_tt c t2 /\
+    ~ cat_precise (tt_merge t1 t2) code == cat_precise t1 code + cat_precise t2 code /\
+    ~ toQ (tt_PreciseSum (tt_merge t1 t2)) == toQ (tt_PreciseSum t1) + toQ (tt_PreciseSum t2).
+Proof.
+  exists 2%nat, (tt_merge (ex_tenth (mkA 50 3)) (ex_tenth (mkA 50 3))), (ex_tenth (mkA (-100) 3)), ex_code.
+  split; [wf_concrete|]. split; [wf_concrete|].
   split; vm_compute; discriminate.
 Qed.
 
@@ -983,31 +1148,6 @@ Qed.
 (* ------------------------------------------------------------------------------------------ *)
 (* (f) payments                                                                                *)
 (* ------------------------------------------------------------------------------------------ *)
-Lemma match_precision_toQ a b : toQ (match_precision a b) == toQ a.
-Proof.
-  unfold match_precision, rescale_up. destruct (Nat.ltb (exp a) (exp b)) eqn:E; [|reflexivity].
-  apply Nat.ltb_lt in E. apply rescale_lossless. lia.
-Qed.
-
-Lemma match_precision_exp a b : (exp b <= exp (match_precision a b))%nat.
-Proof.
-  unfold match_precision, rescale_up. destruct (Nat.ltb (exp a) (exp b)) eqn:E.
-  - rewrite rescale_exp. lia.
-  - apply Nat.ltb_ge in E. exact E.
-Qed.
-
-Lemma acc_add_toQ t a : toQ (add (match_precision t a) a) == toQ t + toQ a.
-Proof. rewrite add_no_loss by apply match_precision_exp. rewrite match_precision_toQ. reflexivity. Qed.
-
-Lemma acc_sub_toQ t a : toQ (sub (match_precision t a) a) == toQ t - toQ a.
-Proof.
-  rewrite sub_add_negate. rewrite add_no_loss by (cbn [negate exp]; apply match_precision_exp).
-  rewrite match_precision_toQ, negate_toQ. reflexivity.
-Qed.
-
-Lemma zero_of_toQ c : toQ (zero_of c) == 0.
-Proof. unfold Qeq, toQ, zero_of. cbn [Qnum Qden val]. lia. Qed.
-
 (* one side of a payment line in the payment currency: absent = 0; None = no exchange rate *)
 Definition pl_side (rates : list xrate) (cur : Z) (c : nat) (l : pay_line) (x : option amount) : option amount :=
   match x with
